@@ -33,7 +33,7 @@ ASSUMPTIONS = ["deletions from inside act remove the acting agent itself or an a
                "delays and dt are decimal literals with at most 6 decimals (0.3, not 0.30000000000000004)",
                "population changes happen between steps and in the two round hooks only, never inside act",
                "order is checked only between events sent to the same agent in the same step and handled in the same step"]
-FAULT_KINDS = ["agent_deleted_with_events_in_flight", "reconfiguration_with_events_in_flight", "send_to_dead_id", "delayed_event"]
+FAULT_KINDS = ["handler_raised", "agent_deleted_with_events_in_flight", "reconfiguration_with_events_in_flight", "send_to_dead_id", "delayed_event"]
 PROBES = ["event_without_handler", "model_reset_with_events_in_flight", "deletion_inside_act", "sent_from_round_hook", "broadcast_event", "event_to_deleted_agent", "event_after_ids_shifted", "delayed_odd_wait", "non_multiple_delay", "two_events_same_agent_same_step",
           "delete_in_begin_hook_after_distribution", "decimal_dt_delay"]
 EXHAUSTIVE = {"quick": False, "thorough": False}
@@ -122,7 +122,16 @@ def generate(spec):
             else:
                 hook_sends.append({"k": k, "where": where, "uid": uid, "to": rng.randrange(0, next_id + 1),
                                    "delay": rng.choice([None, round(dt, 6)]), "name": "ping"})
+    poison = None
+    if drive == "run_step" and rng.random() < 0.12:
+        # a handler fault: the handler of ONE event raises (once); the driver shrugs the failed step off and keeps stepping.
+        # (pure messaging histories: what a failed step leaves of hook operations is not prescribed)
+        cands = [s_ for s_ in sends if s_["name"] != "noise"]
+        if cands:
+            poison = rng.choice(cands)["uid"]
+            pop, acts, hook_sends = [], [], []
     return {"property": PROPERTY, "dt": dt, "steps": steps, "drive": drive, "init": init, "pop": pop, "sends": sends, "hook_sends": hook_sends, "acts": acts,
+            "poison": poison,
             # events are routed the same way whether or not the run collects statistics (training runs switch collection off)
             "collect": rng.random() < 0.7}
 
@@ -178,6 +187,10 @@ def execute(case):
         res.probe("deletion_inside_act")
     raised = None
     ids_shifted = False
+    fault_step = None
+    poison_ok = case.get("poison") is not None and case["drive"] == "run_step" and not case["pop"] and not case.get("acts") and not case.get("hook_sends")
+    if poison_ok:
+        w.poison_uid = case["poison"]
 
     def note_destructive(op):
         nonlocal ids_shifted
@@ -213,6 +226,10 @@ def execute(case):
             try:
                 model.scheduler.run_step(model, (k - 1) // spr, (k - 1) % spr, None, case.get("collect", True))
             except Exception as e:
+                if poison_ok and fault_step is None and getattr(w, "poison_fired", False):
+                    fault_step = k          # the injected handler fault: the driver carries on with the next step
+                    res.fault("handler_raised")
+                    continue
                 raised = (k, type(e).__name__, str(e)[:80])
                 break
             apply_acts(k)
@@ -288,6 +305,14 @@ def execute(case):
         if ids_shifted:
             res.probe("event_after_ids_shifted")
         if raised is not None and K >= raised[0]:
+            continue
+        if fault_step is not None and K >= fault_step:
+            # from the failed step on, WHEN an event is handled is not prescribed (the step was cut short) - but an event is
+            # still handled at most once, and only by the agent it was sent to
+            if len(got) > 1:
+                res.violate("C11.duplicate", {"uid": uid, "handled": got, "after_handler_fault_in_step": fault_step})
+            elif got and got[0][1] != to:
+                res.violate("C11.reached-another-agent", {"uid": uid, "addressed_to": to, "handled_by": got[0][1], "step": got[0][0]})
             continue
         if len(got) == 0:
             res.violate("C11.lost", {"uid": uid, "to": to, "sent_in_step": ks, "delay": delay, "dt": dt, "expected_step": K})
